@@ -161,10 +161,18 @@ TraceApi ==
         /\ Ev.err => Ev.text = TextOf(apio.err.msg, apio.err.pos)
   /\ UNCHANGED <<vars, T, apio, root, rr>>
 
+\* C07: the harness re-reads everything any parser has returned so far (token, value, children, start, end, list
+\* membership) after every top-level call and asks every memoised parser again; a difference is logged as a
+\* "mutation" line.  A returned result is a value: the specification has no action that changes one.
+TraceMutation ==
+  /\ Ev.ev = "mutation"
+  /\ IF "C07" \in Props THEN Print(<<"C07 a returned result was modified afterwards: line", l, "node", Ev.n, "pos", Ev.pos>>, FALSE) ELSE TRUE
+  /\ UNCHANGED <<vars, T, apio, root, rr>>
+
 TraceNext ==
   /\ l <= Len(Trace)
   /\ l' = l + 1
-  /\ (Begin \/ TraceCall \/ TraceRet \/ TraceApi)
+  /\ (Begin \/ TraceCall \/ TraceRet \/ TraceApi \/ TraceMutation)
 
 TraceSpec == TraceInit /\ [][TraceNext]_tvars
 
